@@ -38,7 +38,7 @@ var (
 	tFloat64 = reflect.TypeOf(float64(0))
 )
 
-// the external lookup knows value b=9 and type b=float64
+// the external lookup knows value b=9, type b=float64 and type int64=string
 const extName = "b"
 
 type extLookup struct{}
@@ -49,9 +49,13 @@ func (extLookup) Get(s string) (reflect.Value, error) {
 	}
 	return env.NilValue, errors.New("ext: unknown value")
 }
+// extTypes: the types the external lookup knows; one of them under the name of
+// a built-in type ("built-in type names last" must hold on the root as well)
+var extTypes = map[string]reflect.Type{extName: tFloat64, "int64": tString}
+
 func (extLookup) Type(s string) (reflect.Type, error) {
-	if s == extName {
-		return tFloat64, nil
+	if t, ok := extTypes[s]; ok {
+		return t, nil
 	}
 	return env.NilType, errors.New("ext: unknown type")
 }
@@ -75,8 +79,8 @@ func (s *mscope) typ(n string) (reflect.Type, bool) {
 		if t, ok := e.types[n]; ok {
 			return t, true
 		}
-		if e.ext && n == extName {
-			return tFloat64, true
+		if t, ok := extTypes[n]; ok && e.ext {
+			return t, true
 		}
 		if e.parent == nil {
 			if t, ok := basicNames[n]; ok {
